@@ -17,9 +17,10 @@ def addOperation : List String := ["lock", "prevheads", "append", "status", "hea
 /-- one cached head of `BaseStore.Load` (`Store.loadChecked`, `loadHead`, `missingFetch`, `goodFetch`): the
 log is fetched; an ended context or a head that did not come back ends the load with an error (F32);
 of the fetched entries only those of this log (F27) that the store does not hold yet (F36) and that
-the access controller and the signature check accept (F29) are kept; they are merged WITHOUT a trim,
+the access controller and the signature check accept (F29) are kept; when a limit is set and what was left
+out made the fetch keep too little, it is made again, longer (`Refetch.loop`, F57); they are merged WITHOUT a trim,
 and the trim is asked for only once the listing is longer than the limit (F30) -/
-def loadJoin : List String := ["fetch", "ctxcheck", "headcheck", "ownlog", "held", "canappend", "verify", "merge", "listing", "trim"]
+def loadJoin : List String := ["fetch", "ctxcheck", "headcheck", "ownlog", "held", "canappend", "verify", "enough", "again", "merge", "listing", "trim"]
 
 /-- `events.handleSubscriber`, when its context ends (`BusClose`, `drain := true`): a goroutine keeps
 reading the bus subscription, THEN `Close` is called, and only after it has returned is the reader
